@@ -258,6 +258,9 @@ func workDir() string {
 	d := os.Getenv("VERIF_WORK")
 	if d == "" {
 		d = "/verif/work"
+		if r := os.Getenv("VERIF_ROOT"); r != "" {
+			d = filepath.Join(r, "work")
+		}
 	}
 	return d
 }
